@@ -1056,3 +1056,156 @@ func BashTestOrderRule(w *World, b *Backend, r *Result, rule string, only func(l
 		r.Bad(rule, "testorder:bash:none", "-", "no test command found in the Bash templates")
 	}
 }
+
+// BatchLenMonotoneRule: Batch slices keep their length in a variable <name>_len written by
+// the length-set helper. A helper that stores one element (index %2) and then writes the
+// length index+1 may only do so on a path on which index >= old length is established;
+// otherwise assigning s[0] on a slice of three elements sets its length to 1 (len(s) and
+// range see one element).  The path condition is collected from the enclosing
+// if / else blocks of the helper body; the loop counter initialised from the old length and
+// only incremented is known to be >= the old length.
+func BatchLenMonotoneRule(w *World, b *Backend, r *Result, rule string) {
+	// the length-set helper: a body line  set "%1_len=%2"
+	lenSet := ""
+	for h, lines := range b.Helpers {
+		for _, l := range lines {
+			txt, _ := flattenPUA(l.Variant)
+			if regexp.MustCompile(`set "%1_len=%2"`).MatchString(txt) {
+				lenSet = h
+			}
+		}
+	}
+	if lenSet == "" {
+		r.Bad(rule, "lenmono:batch:setter", "-", "cannot find the helper that stores a slice length (<name>_len)")
+		return
+	}
+	reIf := regexp.MustCompile(`(?i)^(\) else )?if "?([!%][^"! ]*[!%]?|[^" ]+)"? (equ|neq|lss|leq|gtr|geq) "?([!%][^"! ]*[!%]?|[^" (]+)"? \($`)
+	n := 0
+	var hs []string
+	for h := range b.Helpers {
+		hs = append(hs, h)
+	}
+	sort.Strings(hs)
+	for _, h := range hs {
+		lines := b.Helpers[h]
+		type cond struct{ x, op, y string }
+		neg := map[string]string{"lss": "geq", "geq": "lss", "leq": "gtr", "gtr": "leq", "equ": "neq", "neq": "equ"}
+		var stack [][]cond
+		// counter variables initialised from the old length and only incremented
+		initFromLen := map[string]bool{}
+		otherAssign := map[string]bool{}
+		for _, l := range lines {
+			txt, _ := flattenPUA(l.Variant)
+			if m := regexp.MustCompile(`^set "(\w+)=!_len!"$`).FindStringSubmatch(strings.TrimSpace(txt)); m != nil {
+				initFromLen[m[1]] = true
+				continue
+			}
+			if m := regexp.MustCompile(`^set /A "(\w+)=!(\w+)!\+1"$`).FindStringSubmatch(strings.TrimSpace(txt)); m != nil && m[1] == m[2] {
+				continue
+			}
+			if m := regexp.MustCompile(`^set (?:/A )?"(\w+)=`).FindStringSubmatch(strings.TrimSpace(txt)); m != nil {
+				otherAssign[m[1]] = true
+			}
+		}
+		for i, l := range lines {
+			txt, _ := flattenPUA(l.Variant)
+			t := strings.TrimSpace(txt)
+			switch {
+			case reIf.MatchString(t):
+				m := reIf.FindStringSubmatch(t)
+				c := cond{strings.Trim(m[2], "!%"), strings.ToLower(m[3]), strings.Trim(m[4], "!%")}
+				if m[1] != "" && len(stack) > 0 {
+					top := stack[len(stack)-1]
+					var nc []cond
+					for _, pc := range top {
+						nc = append(nc, cond{pc.x, neg[pc.op], pc.y})
+					}
+					if len(top) != 1 {
+						nc = nil // negation of a conjunction is not a conjunction
+					}
+					stack[len(stack)-1] = append(nc, c)
+				} else {
+					stack = append(stack, []cond{c})
+				}
+			case strings.EqualFold(t, ") else ("):
+				if len(stack) > 0 {
+					top := stack[len(stack)-1]
+					var nc []cond
+					if len(top) == 1 {
+						nc = []cond{{top[0].x, neg[top[0].op], top[0].y}}
+					}
+					stack[len(stack)-1] = nc
+				}
+			case t == ")":
+				if len(stack) > 0 {
+					stack = stack[:len(stack)-1]
+				}
+			case strings.HasSuffix(t, "(") && !strings.HasPrefix(t, "::"):
+				stack = append(stack, nil) // other block opener (for …)
+			}
+			// a call of the length setter whose value is index+1
+			calls := false
+			for _, c := range invokedHelpers(b, l) {
+				if c == lenSet {
+					calls = true
+				}
+			}
+			if !calls || h == lenSet {
+				continue
+			}
+			m := regexp.MustCompile(`(?i)call :`+regexp.QuoteMeta(lenSet)+` \S+ !?(\w+)!?`).FindStringSubmatch(t)
+			if m == nil {
+				continue
+			}
+			val := m[1]
+			// where does the value come from: set /A "val=%2+1" earlier in the helper
+			idxPlusOne := false
+			for j := 0; j < i; j++ {
+				tj, _ := flattenPUA(lines[j].Variant)
+				if regexp.MustCompile(`set /A "` + regexp.QuoteMeta(val) + `=%2\+1"`).MatchString(tj) {
+					idxPlusOne = true
+				}
+			}
+			if !idxPlusOne {
+				continue // e.g. the copy helper stores its own element count
+			}
+			n++
+			key := fmt.Sprintf("lenmono:batch:%s", h)
+			// entailment: some condition on the path gives index >= counter, counter >= old length
+			ok := false
+			var conds []string
+			for _, fr := range stack {
+				for _, c := range fr {
+					conds = append(conds, c.x+" "+c.op+" "+c.y)
+					ctr, idx := "", ""
+					switch {
+					case c.y == "2":
+						ctr, idx = c.x, c.y
+						if c.op == "equ" || c.op == "leq" {
+							ok = ok || (initFromLen[ctr] && !otherAssign[ctr])
+						}
+					case c.x == "2":
+						ctr, idx = c.y, c.x
+						if c.op == "equ" || c.op == "geq" {
+							ok = ok || (initFromLen[ctr] && !otherAssign[ctr])
+						}
+					}
+					_ = idx
+					// direct comparison of the index with the old length
+					if (c.x == "2" && c.y == "_len" && (c.op == "geq" || c.op == "gtr")) || (c.x == "_len" && c.y == "2" && (c.op == "leq" || c.op == "lss")) {
+						ok = true
+					}
+				}
+			}
+			pos := w.Pos(l.Em.Pos)
+			if ok {
+				r.Ok(rule, key, pos, "the length index+1 is stored only where index >= old length is established ("+strings.Join(conds, ", ")+")")
+			} else {
+				r.Bad(rule, key, pos, fmt.Sprintf("helper %s stores the length %%2+1 under the path condition [%s], which does not give index >= old length: assigning an element below the current length shortens the slice (s[0] = x on three elements sets len(s) to 1)", h, strings.Join(conds, ", ")))
+			}
+		}
+	}
+	if n == 0 {
+		r.Bad(rule, "lenmono:batch:none", "-", "no helper stores a length derived from the assigned index")
+	}
+}
